@@ -104,6 +104,18 @@ def ensure_facts(repo=None, cold=False, want_syn=True):
     ok = os.path.exists(os.path.join(d, "bodies.jsonl")) and os.path.exists(os.path.join(d, "meta.json"))
     if want_syn:
         ok = ok and os.path.exists(os.path.join(d, "syn.json"))
+    def _ready():
+        r = os.path.exists(os.path.join(d, "bodies.jsonl")) and os.path.exists(os.path.join(d, "meta.json"))
+        return r and (not want_syn or os.path.exists(os.path.join(d, "syn.json")))
+    lockf = None
+    if not ok or cold:
+        # extractions share one warm target directory: serialise them (concurrent quick commands, variant runs)
+        import fcntl
+        os.makedirs(CACHE, exist_ok=True)
+        lockf = open(os.path.join(CACHE, "extract.lock"), "w")
+        fcntl.flock(lockf, fcntl.LOCK_EX)
+        if not cold and _ready():
+            ok = True
     if not ok or cold:
         tmp = d + ".tmp%d" % os.getpid()
         shutil.rmtree(tmp, ignore_errors=True)
@@ -124,8 +136,15 @@ def ensure_facts(repo=None, cold=False, want_syn=True):
         # keep the cache small: drop other hashes' facts (they are cheap to rebuild)
         base = os.path.join(CACHE, "facts")
         ents = sorted((os.path.getmtime(os.path.join(base, e)), e) for e in os.listdir(base))
-        for _, e in ents[:-6]:
-            shutil.rmtree(os.path.join(base, e), ignore_errors=True)
+        for _, e in ents[:-8]:
+            if ".tmp" not in e:
+                shutil.rmtree(os.path.join(base, e), ignore_errors=True)
+    if lockf is not None:
+        lockf.close()
+    try:
+        os.utime(d, None)  # mark as recently used (pruning keeps the most recent)
+    except OSError:
+        pass
     return d, info
 
 
